@@ -504,6 +504,39 @@ func runC16(c *core.Ctx) {
 		mod := []int{2, 1000000, 50}[i%3]
 		c16Check(c, fmt.Sprintf("big/%d", i), mk(na, mod), mk(nb, mod))
 	}
+	// 3b. pairs that differ almost everywhere and are long enough for the search to drop its consumed prefix and restart on
+	// a smaller window more than once (3000-4500 elements), as strings, bytes, tuples and lists
+	for i := 0; i < c.N(4, 16); i++ {
+		na, nb := 3000+bg.r.IntN(800), 3000+bg.r.IntN(800)
+		mkw := func(n int, off int) string {
+			b := make([]byte, n)
+			for k := range b {
+				b[k] = byte('a' + (k*7+off+bg.r.IntN(3))%23)
+			}
+			return string(b)
+		}
+		wa, wb := mkw(na, 0), mkw(nb, 11)
+		var x, y starlark.Value
+		switch i % 4 {
+		case 0:
+			x, y = starlark.String(wa), starlark.String(wb)
+		case 1:
+			x, y = starlark.Bytes(wa), starlark.Bytes(wb)
+		default:
+			tx, ty := make(starlark.Tuple, na), make(starlark.Tuple, nb)
+			for k := range tx {
+				tx[k] = starlark.MakeInt(k*2 + 1)
+			}
+			for k := range ty {
+				ty[k] = starlark.MakeInt(k * 2)
+			}
+			x, y = tx, ty
+			if i%4 == 3 {
+				x, y = starlark.NewList(tx), starlark.NewList(ty)
+			}
+		}
+		c16Check(c, fmt.Sprintf("huge/%d", i), x, y)
+	}
 	_ = sval.Describe
 
 	// 4. the rebuild reason on generated project edits (journaled children)
